@@ -154,3 +154,10 @@ func init() {
 	AddControl(Control{ID: "c14-immut-normalize-inplace", Prop: "C14", Rule: "C14.immut", File: "internal/gojqx/types.go",
 		Old: "			vm[k] = NormalizeFn(e, fn)\n		}\n		return vm\n	case map[any]any:", New: "			vm[k] = NormalizeFn(e, fn)\n			v[k] = vm[k]\n		}\n		return vm\n	case map[any]any:", ExpectKey: "jq:_to_toml=format/toml.toTOML"})
 }
+
+func init() {
+	AddControl(Control{ID: "c01-buffer-bits-count", Prop: "C01", Rule: "C01.buffer", File: "pkg/bitio/buffer.go",
+		Old: "	return buf, l\n", New: "	return buf, b.bufBits\n", ExpectKey: "Bits:reported"})
+	AddControl(Control{ID: "c01-buffer-read-advance", Prop: "C01", Rule: "C01.buffer", File: "pkg/bitio/buffer.go",
+		Old: "	b.bitsOff += c\n", New: "	b.bitsOff += nBits\n", ExpectKey: "ReadBits:advance"})
+}
